@@ -262,13 +262,35 @@ func init() {
 }
 
 func c18Dial(o *Out, r *rand.Rand) {
-	for _, th := range []int{1, 2, 3, 5} {
+	type cfg struct {
+		mode    client.FailMode
+		retries int
+	}
+	cfgs := []cfg{{client.Failfast, 0}, {client.Failtry, 0}, {client.Failtry, 2}, {client.Failover, 2}, {client.Failover, 0}}
+	for ci, th := range []int{1, 2, 3, 5, 3, 4, 2} {
+		c := cfgs[ci%len(cfgs)]
+		if thorough() {
+			c = cfgs[(ci+int(seed))%len(cfgs)]
+		}
+		c18DialCase(o, th, c.mode, c.retries)
+	}
+	if thorough() {
+		for _, c := range cfgs {
+			for _, th := range []int{1, 3} {
+				c18DialCase(o, th, c.mode, c.retries)
+			}
+		}
+	}
+}
+
+func c18DialCase(o *Out, th int, mode client.FailMode, retries int) {
+	{
 		window := 400 * time.Millisecond
 		opt := client.DefaultOption
-		opt.Retries = 0
+		opt.Retries = retries
 		opt.GenBreaker = func() client.Breaker { return client.NewConsecCircuitBreaker(uint64(th), window) }
 		d, _ := client.NewPeer2PeerDiscovery("verifdead@dead-"+fmt.Sprint(th), "")
-		xc := client.NewXClient("Svc", client.Failfast, client.RandomSelect, d, opt)
+		xc := client.NewXClient("Svc", mode, client.RandomSelect, d, opt)
 		atomic.StoreInt64(&c18Dials, 0)
 		start := time.Now()
 		var errs []string
@@ -286,9 +308,10 @@ func c18Dial(o *Out, r *rand.Rand) {
 		}
 		took := time.Since(start)
 		dials := atomic.LoadInt64(&c18Dials)
-		o.Eval(fmt.Sprintf("dial th=%d n=%d", th, n), true)
+		o.Eval(fmt.Sprintf("dial th=%d n=%d mode=%v retries=%d", th, n, mode, retries), true)
 		o.Count("dial.cases")
-		rp := map[string]any{"threshold": th, "calls": n, "dials": dials, "errors": errs}
+		o.Count(fmt.Sprintf("dial.mode=%v", mode))
+		rp := map[string]any{"threshold": th, "calls": n, "dials": dials, "errors": errs, "fail_mode": fmt.Sprint(mode), "retries": retries}
 		if took < window/2 {
 			if dials != int64(th) {
 				o.Violate("c18.xclient.dials", fmt.Sprintf("threshold %d: %d consecutive failing calls inside the window caused %d dials (want exactly %d, then refusals)", th, n, dials, th), rp)
@@ -307,7 +330,7 @@ func c18Dial(o *Out, r *rand.Rand) {
 		before := atomic.LoadInt64(&c18Dials)
 		var reply int
 		_ = xc.Call(context.Background(), "M", 1, &reply)
-		if atomic.LoadInt64(&c18Dials) != before+1 {
+		if atomic.LoadInt64(&c18Dials) <= before { // (retrying modes may dial more than once)
 			o.Violate("c18.xclient.norecover", fmt.Sprintf("threshold %d: after the window elapsed the client did not dial again", th), rp)
 		}
 		xc.Close()
